@@ -1991,6 +1991,11 @@ class Parallel(Logger):
         # callback.
         with self._lock:
             self._call_id = uuid4().hex
+            # Discard the look-ahead batches that a previous call on this
+            # instance may have left behind when it was interrupted by an
+            # error or by an abandoned output generator: they must not be
+            # dispatched as part of this call.
+            self._ready_batches = queue.Queue()
 
         # self._effective_n_jobs should be called in the Parallel.__call__
         # thread only -- store its value in an attribute for further queries.
